@@ -116,7 +116,7 @@ ALL = ["C%02d" % i for i in range(1, 21)]
 
 MANIFEST_TEXT = {
     "C18": {
-        "technique": "differential / metamorphic replay testing over rapid-generated histories: fresh instances, after unrelated histories, concurrently on goroutines, in a second OS process with a different environment; thorough tier under the Go race detector",
+        "technique": "differential / metamorphic replay testing over rapid-generated histories: fresh instances, after unrelated histories, concurrently on goroutines, in a second OS process with a different environment, with the decoded transaction objects shared between simulation, delivery and a second instance, under per-transaction gas limits, without the rolled-back transactions; repeated validation of the same genesis documents; thorough tier under the Go race detector",
         "level": "Exploration: a nondeterminism or hidden shared state must show in root hash, responses, events, export or queries of some replay. The static-scan clause of the property is not decided (DESIGN.md section 6); Go scheduling is not controlled.",
         "note": "Panic logs (stack traces) are masked in the digest; sdk address cache switched off; bech32 prefix fixed per process.",
         "ref": "DESIGN.md section 3 C18",
@@ -158,13 +158,13 @@ MANIFEST_TEXT = {
         "ref": "DESIGN.md section 3 C15",
     },
     "C19": {
-        "technique": "model-based stateful PBT (rapid): five reference maps maintained from transaction outcomes vs single-item, paginated (all page sizes, both modes, both directions) and scalar queries through the real gRPC query router",
+        "technique": "model-based stateful PBT (rapid): five reference maps maintained from transaction outcomes vs single-item, paginated (all page sizes, both modes, both directions, with and without count_total) and scalar queries through the real gRPC query router; one deterministic pagination sweep over registries of more than a thousand entries",
         "level": "Exploration: generated registry histories with collision-prone keys; full pagination sweeps at checkpoints.",
         "note": "`0X`-prefixed token hex in the token-pair query is generated nowhere and not judged.",
         "ref": "DESIGN.md section 3 C19",
     },
     "C10": {
-        "technique": "bounded-exhaustive enumeration (256 role assignments x 5 pending values x 18 types x 4 submitters) through the real message router with full store diff, plus model-based stateful PBT (rapid) over role-change histories",
+        "technique": "bounded-exhaustive enumeration (256 role assignments x 5 pending values x 18 types x 4 submitters) through the real message router with full store diff, run over ordinary accounts and over a family of 20/32/32/21-byte addresses with a common 20-byte prefix, plus model-based stateful PBT (rapid) over role-change histories",
         "level": "Exploration, exhaustive for the stated finite bound (4 accounts), sampled beyond it.",
         "note": "A1 submitter = `from`; role slots installed through genesis, pending owner by a real UpdateOwner.",
         "ref": "DESIGN.md section 3 C10",
@@ -212,7 +212,7 @@ MANIFEST_TEXT = {
         "ref": "DESIGN.md section 3 C09",
     },
     "C02": {
-        "technique": "model-based stateful PBT (rapid) on the real BaseApp pipeline: model set of used (domain, nonce) pairs vs per-pair query, list query and export after every transaction; replay generator varies everything but the nonce",
+        "technique": "model-based stateful PBT (rapid) on the real BaseApp pipeline: model set of used (domain, nonce) pairs vs per-pair query, list query and export after every transaction; replay generator varies everything but the nonce; one deterministic listing walk over 1207 used pairs with page sizes up to 'everything'",
         "level": "Exploration: generated histories with adversarial replays on the real SDK pipeline against a set model; key injectivity probed through neighbour pairs, not proved.",
         "note": "Trusts cosmos-sdk rollback, the reference codec/verifier; 2^96 pairs are sampled.",
         "ref": "DESIGN.md section 3 C02",
